@@ -205,4 +205,3 @@ theorem box_upper {A1 X B1 A2 Y B2 Z C11 C12 C21 C22 : Ext}
 end Ext
 end D01
 end CtyModel
-#print axioms CtyModel.D01.Ext.box_upper
